@@ -14,7 +14,7 @@ PROP = {'drive': ['Font'],
                        'C01_version_round_idem',
                        'C01_time_roundtrip',
                        'C01_angle_round_idem'],
- 'areas': [('font', 1200, 12000)],
+ 'areas': [('font', 2000, 12000)],
  'rule': 'distinct case lines; a font.meta/font.derive/font.fixed line is a complete sfnt.Font value (all scalar '
          'fields + recipes for outlines, cmap, GDEF/GSUB/GPOS), a font.merge line a complete foreign table set '
          '(one decoded record per table or "-"); all are non-trivial (every line exercises every field)',
@@ -37,6 +37,11 @@ PROP = {'drive': ['Font'],
              'C01_read_write needs InDomain: one width per glyph, version < 2^32, and a TrueType font must have a '
              'non-blank glyph - otherwise Write emits a zero-length glyf table that Read rejects (known finding '
              'C01-empty-glyf, witness theorem C01_empty_glyf_rejected).',
+             'Present-but-empty layout tables: an Info without scripts, features and lookups (recipe e0) survives and '
+             'is compared by presence and by number of scripts/features/lookups in font.meta/font.nf; shapes the gtab '
+             'codec itself reduces to that (nil script map, a script without features, a feature without lookups, an '
+             'unreachable lookup: gtab.Read returns an empty Info when the script or lookup list offset is 0) are C08 '
+             'normal forms and take part only in the D streams font.fixed/font.twice.',
              'Byte-level clauses (Write twice gives the same bytes; generation 2 = generation 3 byte for byte) are '
              'checked by the D stream font.fixed on the real code, not proved: the model has no bytes. Map-order '
              'independence of the encoders is C03/C08/C09/C14.',
@@ -67,8 +72,9 @@ LEVEL = {'text': 'Proof (partial): for every font value with one width per glyph
          '(C01_fixed_point_full_false). Tied to write.go/read.go/font.go by field-exact correspondence on '
          'constructed fonts (both outline kinds, CID-keyed CFF, extreme field values, all weight thresholds) and on '
          'foreign table combinations (each table absent in turn, OS/2 versions 0-4, Mac/Windows name tables, kern), '
-         'by decoding the written tables with the repository\'s own decoders (font.derive), and by the direct '
-         'three-generation predicate with byte comparison on the real code.',
+         'by decoding the written tables with the repository\'s own decoders (font.derive), and by direct predicates on '
+         'the real code: Read(Write(F)) = nf F with nf evaluated in Lean (font.nf), the three-generation predicate '
+         'with byte comparison (font.fixed) and repeated Write of every generated font (font.twice).',
  'note': 'Trusted: Lean kernel + 3 standard axioms; hand-written model of the plumbing in write.go/read.go/font.go, '
          'checked by correspondence; table codecs abstract (see assumptions).',
  'technique': 'Lean 4 proof about an executable model of Write-derive / Read-merge at the level of decoded table '
